@@ -790,7 +790,18 @@ def m2_particles(ctx: Any, prog: Program) -> None:
     lst = [n for n in ast.walk(exp) if isinstance(n, ast.List) and all(isinstance(e, ast.Constant) and isinstance(e.value, str) for e in n.elts) and len(n.elts) >= 4]
     sections_w = [e.value for e in lst[0].elts] if lst else []
     ctx.check('C20.M2', sections_r == sections_w and len(sections_r) == 6, mod, exp, f'operator sections: parse reads {sections_r}, export writes {sections_w}', func='Particle.export', text='particle sections')
-    ok = "elem.pop('children')" in psrc and "part_elem['children']" in esrc and "root['particleSystemDefinitions']" in psrc and "root['particleSystemDefinitions']" in esrc and "ele.pop('functionName')" in psrc and "op_elem['functionName'] = operator.function" in esrc
+    def _keys_used(fn: ast.AST, store: bool) -> Set[str]:
+        out: Set[str] = set()
+        for n in ast.walk(fn):
+            if isinstance(n, ast.Subscript) and isinstance(n.slice, ast.Constant) and isinstance(n.slice.value, str) and isinstance(n.ctx, ast.Store if store else ast.Load):
+                out.add(n.slice.value)
+            if not store and isinstance(n, ast.Call) and isinstance(n.func, ast.Attribute) and n.func.attr == 'pop' and n.args and isinstance(n.args[0], ast.Constant) and isinstance(n.args[0].value, str):
+                out.add(n.args[0].value)
+        return out
+    need = {'children', 'particleSystemDefinitions', 'functionName'}
+    fn_store = any(isinstance(n, ast.Assign) and isinstance(n.targets[0], ast.Subscript) and isinstance(n.targets[0].slice, ast.Constant) and n.targets[0].slice.value == 'functionName'
+                   and isinstance(n.value, ast.Attribute) and n.value.attr == 'function' for n in ast.walk(exp))
+    ok = need <= _keys_used(par, False) and need <= _keys_used(exp, True) and fn_store
     ctx.shape('C20.M2', ok, mod, exp, 'attribute names particleSystemDefinitions / children / functionName on both sides', func='Particle.export', text='particle attribute names')
     # iterable walked twice
     param = exp.args.args[1].arg
@@ -812,7 +823,15 @@ def m2_particles(ctx: Any, prog: Program) -> None:
     else:
         ctx.check('C20.M2', all(any("'name'" in ast.unparse(i) for g in n.generators for i in g.ifs) for n in opts), mod, opts[0],
                   'the element name is an ordinary DMX attribute: parse must leave it out of the options (it is stored in .name), otherwise a parsed particle differs from the exported one', func='Particle.parse', text='particle name not in options')
-    ok = "Child(subelem.name)" in psrc and 'name_to_elem[child.particle.casefold()]' in esrc and 'name_to_elem[part.name.casefold()] = part_elem' in esrc
+    def _folded_attr(e: ast.AST) -> Optional[str]:
+        # <x>.<attr>.casefold()  ->  attr
+        if isinstance(e, ast.Call) and isinstance(e.func, ast.Attribute) and e.func.attr == 'casefold' and isinstance(e.func.value, ast.Attribute):
+            return e.func.value.attr
+        return None
+    child_ctor = any(isinstance(c, ast.Call) and dotted(c.func) == 'Child' and c.args and isinstance(c.args[0], ast.Attribute) and c.args[0].attr == 'name' for c in ast.walk(par))
+    maps_store = {dotted(n.value) for n in ast.walk(exp) if isinstance(n, ast.Subscript) and isinstance(n.ctx, ast.Store) and _folded_attr(n.slice) == 'name'}
+    maps_load = {dotted(n.value) for n in ast.walk(exp) if isinstance(n, ast.Subscript) and isinstance(n.ctx, ast.Load) and _folded_attr(n.slice) == 'particle'}
+    ok = child_ctor and bool(maps_store & maps_load)
     ctx.shape('C20.M2', ok, mod, exp, 'children are linked by (case-folded) particle name both ways', func='Particle.export', text='particle child linkage')
 
 
